@@ -348,7 +348,7 @@ def _sel(i, vals):
 
 def _sel_rows(a, key):
     a = _np.asarray(a)
-    n = a.shape[0]
+    n = min(a.shape[0], key.n)   # the index is known to lie in [0, key.n)
     if a.ndim == 1:
         return _sel(key.e, [a[k] for k in range(n)])
     out = _np.empty(a.shape[1:], dtype=object)
